@@ -91,7 +91,7 @@ def mon_area(rng, tier):
     alphabet = [c for c in codes if c != 0] + [0, 3]
     exh = 3 if tier == 'quick' else 4
     res = Result('C06 delineate_area equals upstream reachability (fix-point oracle), each cell once, filled area contains it',
-                 'all grids with <= %d cells over the 8 ESRI codes + sink + invalid code, every outlet, every inlet subset of size <= 1 (exhaustive); %s random grids up to 5x5 with up to 2 inlets' % (exh, 150 if tier == 'quick' else 3000))
+                 'all grids with <= %d cells over the 8 ESRI codes + sink + invalid code, every outlet, every inlet subset of size <= 1 (exhaustive); %s random grids up to 5x5 with up to 2 inlets; %d funnel grids up to 6x6 (cells with up to 8 inflows), four delineations each on the same Catchment object' % (exh, 150 if tier == 'quick' else 3000, 10 if tier == 'quick' else 60))
     res.exhaustive = True
 
     # the wrapper must enter the kernel in the state the proved contracts c_delineate_area#reach / #once require beyond memory safety:
@@ -112,9 +112,10 @@ def mon_area(rng, tier):
         return real_kernel(fdcode, flowdir, outlet, inlets, cells, b1, b2)
 
     @icontract.ensure(lambda result, nr, nc, fd, outlet, inlets: result is None or result['ok'], 'area == reachability oracle')
-    def checked(nr, nc, fd, outlet, inlets):
+    def checked(nr, nc, fd, outlet, inlets, ca=None):
         n = nr * nc
-        ca = Catchment('c', make_flowdir(nr, nc, fd))
+        if ca is None:
+            ca = Catchment('c', make_flowdir(nr, nc, fd))
         entry['bad'] = None
         CG.delineate_area = kernel_entry
         try:
@@ -166,6 +167,22 @@ def mon_area(rng, tier):
                 except icontract.ViolationError as e:
                     res.fail('delineate_area differs from upstream reachability on a %dx%d grid' % (nr, nc),
                              dict(nrows=nr, ncols=nc, flowdir=fd, outlet=outlet, inlets=inlets, detail=str(e)[-400:]))
+    # large catchments with wide search frontiers (cells with up to 8 inflows), and the SAME Catchment object used for a sequence of
+    # delineations (with inlets, then without, then another outlet): every call must give the area of its own arguments
+    from props.common import funnel_grids
+    for (nr, nc, fd, o) in funnel_grids(rng, tier, n=10):
+        n = nr * nc
+        ca = Catchment('c', make_flowdir(nr, nc, fd))
+        seq = [(o, [rng.randrange(n)]), (o, []), (rng.randrange(n), [rng.randrange(n), rng.randrange(n)]), (o, [])]
+        for k, (outlet, inlets) in enumerate(seq):
+            inlets = [i for i in inlets if i != outlet]
+            res.case((nr, nc, tuple(fd), outlet, tuple(inlets), 'reused', k))
+            try:
+                checked(nr, nc, fd, outlet, inlets, ca)
+            except icontract.ViolationError as e:
+                res.fail('delineate_area differs from upstream reachability on a %dx%d grid (call %d on the same Catchment object)' % (nr, nc, k + 1),
+                         dict(nrows=nr, ncols=nc, flowdir=fd, calls=[(a, list(b)) for a, b in seq[:k + 1]], detail=str(e)[-400:]))
+                break
     return res
 
 
